@@ -916,6 +916,15 @@ def proj(o, pair):
     return ('ret', repr(v))
 
 
+def _open_descriptors():
+    """Open file descriptors of this process (a call that answers must not keep
+    any: after enough calls a reachable solver could no longer be run)."""
+    try:
+        return len(os.listdir('/proc/self/fd'))
+    except OSError:
+        return None
+
+
 class FaultyPopen:
     """Fault injector at the process-spawning seam of the bridge: counts the
     subprocess.Popen calls and makes the k-th one fail -- at construction
@@ -1000,6 +1009,7 @@ def execute(case, env, names):
     for tag, fn in (('solve', f_solve), ('issat', f_issat)):
         before = env.snapshot()
         cwd0 = os.getcwd()
+        fds0 = _open_descriptors()
         sys.stderr = io.StringIO()
         inj = FaultyPopen(fault) if fault is not None or case.get('count_popen') else None
         try:
@@ -1022,7 +1032,8 @@ def execute(case, env, names):
         if cwd1 != cwd0:
             os.chdir(cwd0)
         obs[tag] = {'out': o, 'log': env.read_log(), 'added': added, 'removed': removed,
-                    'changed': changed, 'cwd_moved': cwd1 != cwd0}
+                    'changed': changed, 'cwd_moved': cwd1 != cwd0,
+                    'fds': (fds0, _open_descriptors())}
     return obs
 
 
@@ -1303,7 +1314,49 @@ class _NullR:
         pass
 
 
+REPEAT = 12
+
+
+def run_repeat(case, env, names, conv, R):
+    """The same call many times in one process: every call must keep
+    answering, and the number of open file descriptors must not grow with the
+    number of calls (a single call may leave a probe process to be reaped by
+    the next one, so the per-call difference is not judged)."""
+    base = {k_: v for k_, v in case.items() if k_ != 'repeat'}
+    exp = expectation(base, names, conv)
+    vs = []
+    f_start = None
+    for i in range(REPEAT):
+        obs = execute(base, env, names)
+        if i == 2:
+            f_start = obs['solve']['fds'][1]
+        got = judge(base, exp, obs, names)
+        if got:
+            for v in got:
+                v['what'] += ' [call #%d of %d in a row]' % (i + 1, REPEAT)
+            vs.extend(got[:2])
+            break
+        R.stats['api_calls'] += 2
+        R.stats['tempdir_comparisons'] += 2
+    else:
+        import gc
+        gc.collect()
+        f_end = _open_descriptors()
+        if f_start is not None and f_end is not None and f_end - f_start >= (REPEAT - 3):
+            vs.append({'key': 'resources:%s:descriptor-leak' % conv.get((base.get('cmd') or '').split()[0]
+                                                                        if base.get('cmd') else None, 'default'),
+                       'what': '%d calls of solve()/is_satisfiable(cmd=%r) in a row raised the number of open '
+                               'file descriptors from %d to %d: a long-running process ends up unable to run '
+                               'a reachable solver' % (2 * (REPEAT - 3), base.get('cmd'), f_start, f_end),
+                       'case': dict(case)})
+    R.stats['repeat_families'] += 1
+    R.case(sample=case, nontrivial=True)
+    return vs
+
+
 def run_case(case, env, names, conv, R=None):
+    if case.get('repeat'):
+        return run_repeat(case, env, names, conv, R if R is not None else _NullR())
     if case.get('faultfamily'):
         return run_fault_family(case, env, names, conv, R if R is not None else _NullR())
     if case.get('fault') is not None:
@@ -1472,6 +1525,16 @@ def all_cases(tier, seed):
                 c = mk('faultpoints', F, cmd=cmd, inst=inst)
                 c['faultfamily'] = True
                 cases.append(c)
+
+    # C''. many calls in a row in one process -----------------------------------
+    for nm in reps:
+        for F in (F_SAT, F_UNSAT):
+            c = mk('repeat', F, cmd=nm)
+            c['repeat'] = True
+            cases.append(c)
+    c = mk('repeat', F_SAT, cmd=None, inst='ALL')
+    c['repeat'] = True
+    cases.append(c)
 
     # D. command lines -----------------------------------------------------------
     for nm in names:
